@@ -38,6 +38,7 @@ type c03Op struct {
 	Req      map[string]int64 `json:"req,omitempty"`
 	Np       bool             `json:"np,omitempty"`
 	Bound    bool             `json:"bound,omitempty"`
+	Term     bool             `json:"term,omitempty"` // podUpdate: the pod has finished (Succeeded / Failed); it keeps counting until it is deleted
 	Delta    map[string]int64 `json:"delta,omitempty"`
 	Runtime  bool             `json:"runtime,omitempty"`
 	CheckPar bool             `json:"checkParent,omitempty"`
@@ -103,7 +104,7 @@ func c03Quota(o c03Op) *v1alpha1.ElasticQuota {
 
 var c03RV int
 
-func c03Pod(id, quota string, req map[string]int64, np, bound bool) *corev1.Pod {
+func c03Pod(id, quota string, req map[string]int64, np, bound bool, term ...bool) *corev1.Pod {
 	c03RV++
 	p := &corev1.Pod{
 		ObjectMeta: metav1.ObjectMeta{Name: id, Namespace: "ns", UID: types.UID(id), ResourceVersion: fmt.Sprint(c03RV),
@@ -116,6 +117,10 @@ func c03Pod(id, quota string, req map[string]int64, np, bound bool) *corev1.Pod 
 	if bound {
 		p.Spec.NodeName = "n1"
 		p.Status.Phase = corev1.PodRunning
+	}
+	if len(term) > 0 && term[0] { // a finished pod: still an object with a node name, counted until it is deleted
+		p.Spec.NodeName = "n1"
+		p.Status.Phase = []corev1.PodPhase{corev1.PodSucceeded, corev1.PodFailed}[len(id)%2]
 	}
 	return p
 }
@@ -188,10 +193,13 @@ func c03Run(t *testing.T, rec *vu.Recorder, script []c03Op) {
 			ev["pod"], ev["q"], ev["req"], ev["np"], ev["bound"] = o.Pod, o.Q, c03V(o.Req), o.Np, false
 		case "podUpdate":
 			old := pods[o.Pod]
-			p := c03Pod(o.Pod, o.Q, o.Req, o.Np, o.Bound)
+			p := c03Pod(o.Pod, o.Q, o.Req, o.Np, o.Bound, o.Term)
 			pods[o.Pod] = p
 			gp.OnPodUpdate(old, p)
 			ev["pod"], ev["q"], ev["req"], ev["np"], ev["bound"] = o.Pod, o.Q, c03V(o.Req), o.Np, o.Bound
+			if o.Term {
+				ev["term"] = true
+			}
 		case "podDelete":
 			old := pods[o.Pod]
 			delete(pods, o.Pod)
@@ -248,6 +256,7 @@ func c03Random(rng *rand.Rand, n int, runtime, checkParent, scale bool) []c03Op 
 	type ps struct {
 		q        string
 		assigned bool // shadow, steers generation only
+		last     c03Op
 	}
 	pods := map[string]*ps{}
 	names := []string{"a", "b", "c", "d", "e"}
@@ -258,6 +267,20 @@ func c03Random(rng *rand.Rand, n int, runtime, checkParent, scale bool) []c03Op 
 		}
 		sort.Strings(s)
 		return s
+	}
+	if rng.Intn(3) == 0 {
+		dims := []string{"cpu", "memory"}
+		gmax := map[string]int64{"cpu": int64(8 + rng.Intn(6)), "memory": int64(8 + rng.Intn(6)), "gpu": 0}
+		amin := map[string]int64{"cpu": int64(1 + rng.Intn(4)), "memory": int64(1 + rng.Intn(4)), "gpu": 0}
+		for _, o := range []c03Op{
+			{Op: "quota", Name: "a", Parent: extension.RootQuotaName, IsParent: true, Lent: true, Min: amin, Max: gmax, Dims: dims},
+			{Op: "quota", Name: "b", Parent: "a", IsParent: true, Lent: true, Min: amin, Max: gmax, Dims: dims},
+			{Op: "quota", Name: "c", Parent: "b", IsParent: false, Lent: true, Min: mask(vec(3), dims), Max: gmax, Dims: dims},
+			{Op: "quota", Name: "d", Parent: "a", IsParent: false, Lent: true, Min: map[string]int64{"cpu": 0, "memory": 0, "gpu": 0}, Max: gmax, Dims: dims},
+		} {
+			quotas[o.Name] = o
+			out = append(out, o)
+		}
 	}
 	for len(out) < n {
 		k := rng.Intn(20)
@@ -301,8 +324,24 @@ func c03Random(rng *rand.Rand, n int, runtime, checkParent, scale bool) []c03Op 
 			switch {
 			case !ok:
 				q := qsl[rng.Intn(len(qsl))]
-				pods[id] = &ps{q: q}
-				out = append(out, c03Op{Op: "podAdd", Pod: id, Q: q, Req: vec(5), Np: rng.Intn(4) == 0})
+				o := c03Op{Op: "podAdd", Pod: id, Q: q, Req: vec(5), Np: rng.Intn(4) == 0}
+				pods[id] = &ps{q: q, last: o}
+				out = append(out, o)
+			case rng.Intn(6) == 0:
+				// informer update of the pod object: only the preemptible label flips / the pod finishes / the request changes
+				o := c03Op{Op: "podUpdate", Pod: id, Q: p.q, Req: p.last.Req, Np: p.last.Np, Bound: p.last.Bound}
+				switch rng.Intn(3) {
+				case 0:
+					o.Np = !o.Np
+				case 1:
+					o.Term, o.Bound = true, false
+				default:
+					if !p.assigned { // closed loop: what a group uses only grows through admissions
+						o.Req = vec(5)
+					}
+				}
+				p.last = o
+				out = append(out, o)
 			case !p.assigned && rng.Intn(4) > 0:
 				out = append(out, c03Op{Op: "admit", Pod: id})
 				p.assigned = true // unknown to the generator; "maybe assigned" from now on
@@ -335,7 +374,7 @@ func TestVerifC03(t *testing.T) {
 		}
 		return
 	}
-	n, length := 120, 45
+	n, length := 220, 45
 	if vu.Thorough() {
 		n, length = 1200, 70
 	}
